@@ -977,6 +977,8 @@ def stress_defs(prefix='K'):
     defs.append(cfz)
     defs.append(Def(prefix + 'R1', False, 'none', [], 1, [], [], [(prefix + 'R1', 'named', [('r#type', P('u8')), ('r#loop', ('ty', Str())), ('plain', P('u16'))])]))
     defs.append(Def(prefix + 'R2', False, 'zero', ['C'], 1, [], [], [(prefix + 'R2', 'named', [('r#match', P('u32')), ('r#fn', P('u8'))])]))
+    defs.append(Def(prefix + 'RC1', False, 'zero', ['align(16)', 'C'], 16, [], [], [(prefix + 'RC1', 'named', [('a', P('u8')), ('b', P('u32'))])]))
+    defs.append(Def(prefix + 'RC2', False, 'zero', ['align(8)', 'C'], 8, [], [], [(prefix + 'RC2', 'tuple', [('f0', P('u16')), ('f1', P('u8'))])]))
     many = [('V%d' % k, 'unit', []) for k in range(260)]
     many[257] = ('V257', 'tuple', [('g0', P('u16'))])
     defs.append(Def(prefix + 'X5', True, 'none', [], 1, [], [], list(many)))
